@@ -272,6 +272,11 @@ func (x *Exec) callFunc(fn *types.Func, recv *Value, call *ast.CallExpr, st *Sta
 		return x.dummyResults(fn, st)
 	}
 	c := x.eng.db.C[key]
+	if x.c != nil && x.c.Mode != "" {
+		if cv := x.eng.db.C[key+"@"+x.c.Mode]; cv != nil {
+			c = cv
+		}
+	}
 	fi := x.eng.funcs[key]
 	if c != nil && !c.Inline {
 		return x.applyContract(c, fn, recv, args, st, call)
